@@ -758,7 +758,7 @@ def run_history_existing(rep, case, workdir):
 
 def run_shard(rep, tier, seed, shard, nshards):
     dl = Deadline(budget(tier, 50, 600))
-    for k in range(budget(tier, 120, 3000)):
+    for k in range(budget(tier, 300, 3000)):
         if dl.expired():
             break
         cs = f"{seed}/C14/{shard}/{k}"
